@@ -65,3 +65,11 @@ fn test_threadid() {
 	.join()
 	.expect("thread failed");
 }
+
+#[cfg(watchexec_verif)]
+impl Id {
+	/// Verification seam: a key that orders ids of one thread by creation.
+	pub(crate) fn verif_order(&self) -> (u64, u64) {
+		(self.thread.get(), self.counter)
+	}
+}
